@@ -15,7 +15,11 @@ THEOREMS = ["C07.c07_prim", "C06.c06_pump_total", "C08.c08_skip_exceeded", "C08.
             # warn mode never ends in an internal error (WarnNC.lean, Props/C08N.lean)
             "WC.bind", "owner_wc", "decode_wa", "sizedLoop_wc", "decodeCommand_cm", "decodeResponse_rm", "decodeStream_ncxw",
             "runWalker_ncxw", "decode_pi", "decodeCommand_pi", "decodeResponse_pi",
-            "C08.c08_warn_no_crash_type", "C08.c08_warn_no_crash_command", "C08.c08_warn_crash_msg", "C08.c08_warn_outcomes"]
+            "C08.c08_warn_no_crash_type", "C08.c08_warn_no_crash_command", "C08.c08_warn_crash_msg", "C08.c08_warn_outcomes",
+            # every out-of-range value is shown, then reported, directly and exactly once (ValueWarn.lean, Props/C08V.lean)
+            "Annot.append", "readPrim_vw", "decode_vw", "decodeCommand_vw", "decodeResponse_vw", "decodeStream_vw", "runWalker_vw",
+            "Annot.warning_follows", "Annot.offender_warned", "C08.c08_value_tables", "C08.c08_annotated",
+            "C08.c08_value_warning_follows_its_field", "C08.c08_offending_field_is_warned"]
 
 
 def allowed_escape(block):
@@ -152,8 +156,8 @@ def run(ctx, replay_case):
     })
 
 
-PROP = {"targets": ["TpmProofs.Props.C08W", "TpmProofs.Props.C08N"], "module": "TpmProofs.Props.C08N",
-        "checker_modules": ["TpmProofs.Props.C08W", "TpmProofs.Props.C08N"], "theorems": THEOREMS, "run": run,
+PROP = {"targets": ["TpmProofs.Props.C08W", "TpmProofs.Props.C08N", "TpmProofs.Props.C08V"], "module": ["TpmProofs.Props.C08N", "TpmProofs.Props.C08V"],
+        "checker_modules": ["TpmProofs.Props.C08W", "TpmProofs.Props.C08N", "TpmProofs.Props.C08V"], "theorems": THEOREMS, "run": run,
         "assumptions": ["no size error escapes, no internal error but the known assertion (every layout of /repo, every command code, streams, every input), "
                         "tiling and the first-problem relation are theorems about the model; the model is tied to the implementation by the warn-mode "
                         "correspondence of this check and the same statements are monitored on the implementation's own observations",
